@@ -72,6 +72,11 @@ class Retry:
                 if g < self.retry - 40 or g > self.retry + SLACK:
                     bad.append("stalled connect retried after %d ms (connect-retry %d ms)" % (g, self.retry))
                     break
+        if ex.get("established_twice"):
+            est = [cb["at"] for cb in r["cbs"] if cb["name"] == "OnEstablished" and cb["ph"] == "enter"]
+            if len(est) < 2:
+                bad.append("after the inbound session ended the remote accepted the outbound connection and completed the "
+                           "handshake, but no session was established over it (%d OnEstablished)" % len(est))
         if ex.get("dial_after_inbound_end"):
             t_end = max([c["eof_at"] for c in r["conns"] if c["name"] == "i1" and c["eof"]] + [0])
             after = [d for d in dials if d >= t_end - 5]
@@ -122,6 +127,15 @@ def items(rng, tier):
                           ["fullclose", "i1"], ["sleep", 120], ["dial", "i2"]] + handshake("i2") + [["sleep", 30]],
                          idle, retry, expect={"dial_after_inbound_end": True}, start_refused=True))
         sid += 1
+        # ... and once the remote accepts the outbound connection the session is established over it
+        for how in ("fin", "cease"):
+            end = ([["close", "i1"], ["recv_eof", "i1", 800], ["fullclose", "i1"]] if how == "fin" else
+                   [["send", "i1", S.frame(S.NOTIF, S.notif_body(6, 4)).hex(), 0], ["recv_eof", "i1", 800]])
+            out.append(Retry(sid, "inbound-%s-then-outbound-establishes" % how,
+                             [["sleep", 30], ["dial", "i1"]] + handshake("i1") + [["sleep", 30]] + end +
+                             [["refuse", False], ["drain"], ["accept", "c2", idle + retry + 800]] + handshake("c2") + [["sleep", 30]],
+                             idle, retry, expect={"established_twice": True}, start_refused=True))
+            sid += 1
         # passive peers: faults, never a dial; a failed inbound attempt must not block the next one
         for how in ("fin-in-openSent", "rst-in-openConfirm", "cease-in-established"):
             st = [["dial", "i1"], ["recv", "i1", 1, 1500]]
